@@ -248,6 +248,7 @@ class Scanner:
         self.root = src_root
         self.files = []
         self.rows = []        # dict(file, line, binding, hasher, op, text)
+        self.accounted = {}   # file rel -> list of (start, end) spans whose hash tokens belong to a binding
         self.bindings = []    # dict(file, line, name, hasher, kind)
         rels = []
         for d in SCAN_DIRS:
@@ -279,6 +280,21 @@ class Scanner:
                 if h:
                     self.hash_fields.setdefault(fname, []).append((s, h))
                     self.field_scope[(s, fname)] = None if is_pub else module_subtree(f.rel)
+                    end = f.code.find("\n", off)
+                    # the field's type may span lines: account up to the next top-level comma
+                    depth, j = 0, off
+                    while j < len(f.code):
+                        ch = f.code[j]
+                        if ch in "(<[{":
+                            depth += 1
+                        elif ch in ")>]}":
+                            if depth == 0:
+                                break
+                            depth -= 1
+                        elif ch == "," and depth == 0:
+                            break
+                        j += 1
+                    self.account(f, off, max(j, end))
                     self.bindings.append({"file": f.rel, "line": line_of(f.code, off), "name": f"{s}.{fname}",
                                           "hasher": h, "kind": "field"})
                     self.add_row(f, off, f"{s}.{fname}", h, "declare")
@@ -307,6 +323,7 @@ class Scanner:
             for fn in f.fns:
                 h = hasher_of(fn["ret"])
                 if h:
+                    self.account(f, fn["ret_off"], fn["body_start"])
                     self.hash_fns[fn["name"]] = h
                     self.bindings.append({"file": f.rel, "line": line_of(f.code, fn["sig_start"]),
                                           "name": f"fn {fn['name']}", "hasher": h, "kind": "return"})
@@ -317,8 +334,14 @@ class Scanner:
             for fn in f.fns:
                 if hasher_of(fn["params"]):
                     self.hash_param_fns.add(fn["name"])
+            # `use` declarations
+            for m in re.finditer(r"\buse\s+[^;]*;", f.code):
+                self.account(f, m.start(), m.end())
 
     # ------------------------------------------------------------------------------------
+    def account(self, f, start, end):
+        self.accounted.setdefault(f.rel, []).append((start, end))
+
     def add_row(self, f, idx, binding, hasher, op):
         self.rows.append({"file": f.rel, "line": line_of(f.code, idx), "binding": binding,
                           "hasher": hasher, "op": op, "text": f.src_line(idx)})
@@ -446,7 +469,8 @@ class Scanner:
                 h = hasher_of(pm.group(2))
                 pos = off + part.find(pm.group(1))
                 st = self.struct_of_type(pm.group(2))
-                if h and not st:
+                if h:
+                    self.account(f, off, off + len(part))
                     declare(pm.group(1), h, pos)
                     self.bindings.append({"file": f.rel, "line": line_of(code, pos), "name": pm.group(1),
                                           "hasher": h, "kind": "param"})
@@ -484,6 +508,7 @@ class Scanner:
             if not im:
                 im2 = re.match(r"(%s)\s*:\s*([^=;]+?)\s*;" % IDENT, rest)
                 if im2 and hasher_of(im2.group(2)):
+                    self.account(f, p, p + im2.end())
                     declare(im2.group(1), hasher_of(im2.group(2)), p)
                     self.add_row(f, p, f"{fn['name']}::{im2.group(1)}", hasher_of(im2.group(2)), "declare")
                 continue
@@ -525,7 +550,8 @@ class Scanner:
                     cand = impl_t if km.group(1) == "Self" else km.group(1)
                     if cand in self.structs:
                         st = cand
-            if h and not st:
+            if h:
+                self.account(f, p, j + 1)
                 declare(name, h, p)
                 self.bindings.append({"file": f.rel, "line": line_of(code, p), "name": name,
                                       "hasher": h, "kind": "let"})
@@ -667,6 +693,24 @@ class Scanner:
             # outer fn, which cannot be referenced from a nested fn item, so restrict to outermost
             for fn in f.fns:
                 self.scan_fn(f, fn)
+        # fail closed: every `HashMap`/`HashSet` token of a scanned file must belong to a recognised
+        # declaration (field, parameter, return type, `let`), to a `use`, or be an empty temporary
+        # (`HashMap::new()` / `::default()` / `::with_capacity(..)` used directly as an argument or
+        # field initialiser: an empty map has no order); anything else is listed as `unknown`
+        for f in self.files:
+            spans = self.accounted.get(f.rel, [])
+            for m in HASH_RE.finditer(f.code):
+                if any(a <= m.start() < b for (a, b) in spans):
+                    continue
+                tail = f.code[m.end():m.end() + 60]
+                if re.match(r"\s*(::\s*<[^>(]*>)?\s*::\s*(new|default|with_capacity)\s*\(", tail):
+                    pre = f.code[max(0, m.start() - 200):m.start()]
+                    if not re.search(r"\blet\b[^;]*$", pre) or re.search(r"[(,:]\s*(std\s*::\s*collections\s*::\s*)?$", pre):
+                        continue
+                self.rows.append({"file": f.rel, "line": line_of(f.code, m.start()),
+                                  "binding": "<unaccounted %s>" % m.group(0),
+                                  "hasher": "fx" if m.group(1) else "std", "op": "unknown",
+                                  "text": f.src_line(m.start())})
         # sanity
         for rel in MUST_HAVE:
             if not any(b["file"] == rel and b["hasher"] == "std" for b in self.bindings):
